@@ -39,6 +39,15 @@ static const double B0[3][3] = { {1, 0, 2}, {0, 0, 1}, {4, 0, -1} };
 #elif MAT == 9    /* singular: duplicate columns (inside a bump) */
 static const double B0[3][3] = { {1, 1, 1}, {2, 2, -1}, {1, 1, 2} };
 #define UPD_IDX 1
+#elif MAT == 10   /* singular: two column singletons in the same row, the duplicate is the FIRST singleton column (stage-0 pivot row) */
+static const double B0[3][3] = { {0, 1, 0}, {1, 0, 1}, {0, 0, 0} };
+#define UPD_IDX 1
+#elif MAT == 11   /* singular: two column singletons in the same row, duplicate of a later singleton column */
+static const double B0[3][3] = { {0, 1, 1}, {1, 0, 0}, {0, 0, 0} };
+#define UPD_IDX 1
+#elif MAT == 12   /* singular: scaled duplicate of the first singleton column, remaining rows resolved by singletons */
+static const double B0[3][3] = { {2, 4, 0}, {0, 0, 0}, {0, 0, 1} };
+#define UPD_IDX 1
 #endif
 static const double NEWCOL0[3] = { 1, 0, 2 };
 #else /* DIM == 4 */
